@@ -93,6 +93,51 @@ def reference_verbatim(ctx):
         rep.bad("C10.R5", C, ev[0] if ev else fn.name, "the reference strains are not evaluated on element selections of the stored reference coordinates", f"{ci.rel}:{fn.lineno}")
 
 
+def reference_counterparts(ctx, rule="C10.R10"):
+    """The stress-free clause needs every term of the law to vanish when strain == reference strain, for ANY reference (set_reference_strains
+    accepts cross-sections that are not perpendicular to the centre line: B_Gamma0 is a unit vector, not e_x).  Terms of the form
+    g(f(B_Gamma), f0(B_Gamma0)) do so only if f0 is f.  Pairs are found by name (x_ / x0_, also as the two elements of a returned tuple whose
+    parameters are the strain and its reference) and compared after the substitution strain -> reference strain."""
+    rep = ctx.rep
+    MMp = "cardillo/rods/_material_models.py"
+    mod = ctx.repo.module(MMp)
+    SUB = (("B_Gamma0", "\x00G0"), ("B_Kappa0", "\x00K0"), ("B_Gamma", "B_Gamma0"), ("B_Kappa", "B_Kappa0"), ("\x00G0", "B_Gamma0"), ("\x00K0", "B_Kappa0"))
+
+    def to_ref(src):
+        for a, b in SUB:
+            src = src.replace(a, b)
+        return src
+    n = 0
+    for q, fn in mod.defs().items():
+        if not isinstance(fn, ast.FunctionDef):
+            continue
+        C = f"{MMp}:{q}"
+        binds = {w.targets[0].id: w.value for w in ast.walk(fn) if isinstance(w, ast.Assign) and len(w.targets) == 1 and isinstance(w.targets[0], ast.Name)}
+        pairs = []
+        for nm, v in binds.items():
+            for ref in (nm.rstrip("_") + "0_", nm + "0", nm.rstrip("_") + "0"):
+                if ref != nm and ref in binds:
+                    pairs.append((nm, norm_src(v), ref, norm_src(binds[ref]), v))
+        params = [a.arg for a in fn.args.args]
+        for r in [w for w in ast.walk(fn) if isinstance(w, ast.Return) and isinstance(w.value, ast.Tuple) and len(w.value.elts) == 2]:
+            a, b = w.value.elts if False else r.value.elts
+            sa, sb = norm_src(a), norm_src(b)
+            if any(p + "0" in params and p in sa for p in params) and any(p.endswith("0") and p in sb for p in params):
+                pairs.append(("<return[0]>", sa, "<return[1]>", sb, r))
+        for nm, sv, ref, sr, node in pairs:
+            if not any(k in sv for k in ("B_Gamma", "B_Kappa")):
+                continue
+            n += 1
+            if to_ref(sv) == sr:
+                rep.ok(rule, C, f"`{ref} = {sr}` is `{nm} = {sv}` at the reference strain")
+            else:
+                rep.bad(rule, C, node, f"`{ref} = {sr[:50]}` is not the counterpart of `{nm} = {sv[:50]}` (that would be `{to_ref(sv)[:50]}`): a term built from their difference / ratio does not "
+                        "vanish at a reference configuration for which the two functions differ (pre-sheared cross-sections: B_Gamma0 is a unit vector but not e_x), so that reference "
+                        "reports strain energy and internal forces", f"{MMp}:{getattr(node, 'lineno', fn.lineno)}")
+    if n < 2:
+        rep.ok(rule, MMp, f"only {n} strain / reference-strain counterparts found", verdict="unknown", trivial=True)
+
+
 def equivariance(ctx, rule="C10.R8"):
     """K20: what every interpolation kernel returns has the transformation type its role demands - position P, rotation L, both strains I."""
     from .. import equivar as EQ
@@ -124,6 +169,8 @@ def run(ctx):
     rep = ctx.rep
     rep.rule("C10.R8", "equivariance typing (K20) of every interpolation kernel: the returned position transforms as a point, the rotation left-covariantly, both strains are invariant under a superposed rigid motion of the nodes", 20)
     equivariance(ctx)
+    rep.rule("C10.R10", "material laws: a reference quantity is the SAME function of the reference strain as its current counterpart is of the current strain (lambda0 = norm(B_Gamma0) next to lambda = norm(B_Gamma)); only then do the differences f(strain) - f(reference strain) vanish at every reference configuration, pre-sheared ones included", 2)
+    reference_counterparts(ctx)
     rep.rule("C10.R9", "memoised rod routines (kernels, and anything a change adds: residuals, forces) are keyed by every argument the result depends on: a compliance residual served from a cache keyed without la_c reports a stale non-zero value at the reference configuration", 8)
     from . import c26 as _c26
     _c26.r1_keys(ctx, _c26.find_sites(ctx), rule="C10.R9", want_cls=lambda ci: ci.rel.startswith("cardillo/rods/"))
@@ -357,4 +404,9 @@ MUTANTS += [
 MUTANTS += [
     dict(id="c10-r8-antipode", canary=True, what="[seeded by sub-agent] Quaternion kernel: nodal quaternions with negative real part are replaced by their antipode before interpolation (absolute, not relative, hemisphere test)", file=CR,
          old="                p_node = qe[self.nodalDOF_element_p[node]]\n                p += N[node] * p_node\n", new="                p_node = qe[self.nodalDOF_element_p[node]]\n                if p_node[0] < 0:\n                    p_node = -p_node\n                p += N[node] * p_node\n", expect="C10.R8"),
+]
+
+MUTANTS += [
+    dict(id="c10-r10-seed", canary=True, every=True, what="[seeded by sub-agent] Harsch2021 takes the reference stretch as B_Gamma0[0] (assumes the reference strain is e_x) next to lambda = norm(B_Gamma)", file='cardillo/rods/_material_models.py',
+         old='        lambda_ = norm(B_Gamma)\n        lambda0_ = norm(B_Gamma0)\n', new="        lambda_ = norm(B_Gamma)\n        lambda0_ = B_Gamma0[0]\n", expect="C10.R10"),
 ]
